@@ -460,8 +460,7 @@ def eLoop : Nat → Prog → DRef → Option Val → Bool → Nat → JS → JS 
 end
 
 /-- `$goroutine` (goroutines.js:131-161): frame depth 1 calls `fun` at depth 2; a thrown value is
-    swallowed iff `exit` is set; the goroutine ends with `exit` set in either case, so "ended after
-    runtime.Goexit was called" is reported as `goexit`. -/
+    swallowed iff `exit` is set (`goexit`); a normal return of `fun` is `normal`. -/
 def emu (fuel : Nat) (P : Prog) : Obs :=
   let (s, c) := eFn fuel P 0 0 0 2 JS.init
   ⟨s.trace.reverse,
@@ -474,7 +473,7 @@ def emu (fuel : Nat) (P : Prog) : Obs :=
       | .jsErr v => .panic v
       | .null => .stuck 1
       | .typeErr => .stuck 2)
-   | _ => if s.exit then .goexit else .normal⟩
+   | _ => .normal⟩
 
 /-- the global emulation state left behind: (`$stackDepthOffset`, `$panicStackDepth`, lengths of
     `panicStack` and `deferStack`) -/
